@@ -1519,6 +1519,12 @@ def _rule_aliased(C, aliased: list[Event], events: list[Event], label_names: set
             continue
         sel = find_selection(M, m_expr, ev)
         if isinstance(sel, str):
+            # not a selection that is read - but if the aliased module is reached from the module along the graph's edges and never
+            # compared with it by name, the selection is by reachability, not by name (rules/c17_domain.py)
+            via = _structural_choice(M, m_expr, ev, label_names)
+            if via is not None:
+                sel_results.append(("bad", r1, "ancestor test", f"the aliased module `{norm(m_expr, 40)}` whose alias labels `{ev.n}` is found by following the structure of the graph (`{via}`), and never compared with `{ev.n}` by name: hierarchy edges are not the dotted-prefix relation, so a module can get the alias of a module whose name it does not extend, cut at a non-boundary", ev.node))
+                continue
             sel_results.append(("unsure", r2, "most specific first", sel, ev.node))
             continue
         groups.setdefault((id(sel.loop) if sel.loop is not None else id(ev.node), sel.cand), []).append((ev, sel))
@@ -1554,6 +1560,30 @@ def _rule_aliased(C, aliased: list[Event], events: list[Event], label_names: set
         else:
             C.ok(rule, what, items_[0][1], items_[0][2])
     return self_event, len(parsed), bool(shape_bad or shape_unsure)
+
+
+def _structural_choice(M: Model, m_expr: ast.expr, ev: Event, label_names: set[str]) -> str | None:
+    """the read of the graph's edge structure through which the local `m_expr` gets its values, if it has one, starts out as the
+    module itself, and no condition of the store relates it to the module by name"""
+    from .c17_domain import provenance
+
+    if not isinstance(m_expr, ast.Name) or ev.n is None or ev.nloop is None:
+        return None
+    names_, reads = provenance(M, m_expr)
+    if not reads or ev.n not in names_:
+        return None
+    try:
+        g = ev_guard(M, ev, ev.nloop)
+        kinds = {a: classify_atom(M, a, ev.n, m_expr.id, label_names) for a in atoms_of(g)}
+    except AnalysisError:
+        return None
+    if set(kinds.values()) & {"self", "proper", "self+proper", "raw", "neg:proper", "raw:self", "raw:proper", "raw:both", "raw:not-self"}:
+        return None
+    for a, k in kinds.items():
+        pe = parse_atom(a) if k == "other" else None
+        if k == "other" and (pe is None or any(isinstance(x, ast.Name) and x.id == ev.n for x in ast.walk(pe))):
+            return None  # a test that involves the module itself and is not read: it may be the comparison by name
+    return reads[0]
 
 
 def _self_in_keys(M: Model, atom_text: str, n: str) -> bool:
